@@ -29,7 +29,7 @@ def spec_info(spec_case):
 
 
 def static_check(ctx, mode, total, extra="", select=None, oracle_relevant=None, rule="", max_n=None,
-                 finish=True, tag=None, extra_props=(), count_bound=False, judge=None, extra_stats=None, more_runs=()):
+                 finish=True, tag=None, extra_props=(), count_bound=False, judge=None, extra_stats=None, more_runs=(), spec_opts=""):
     """select(case) -> bool: which generated cases belong to this property.
     oracle_relevant(verdict string) -> bool: which oracle verdicts are violations of THIS property."""
     proofs_ok = check_proofs(ctx, extra_props=extra_props)
@@ -41,10 +41,10 @@ def static_check(ctx, mode, total, extra="", select=None, oracle_relevant=None, 
     thr = hybrid_threshold()
     mn = max_n or (9 if ctx.thorough else 8)
     shards = run_mode(ctx, h, d, mode, total, extra=extra, tag=tag,
-                      drv_modes=[("static", "--thr %d" % thr), ("spec", "--max-n %d" % mn)])
+                      drv_modes=[("static", "--thr %d" % thr), ("spec", ("--max-n %d " % mn) + spec_opts)])
     for i, (mode2, total2, extra2) in enumerate(more_runs):
         shards += run_mode(ctx, h, d, mode2, total2, extra=extra2, tag="%s-%d" % (tag or mode, i + 2), seed_offset=i + 1,
-                           drv_modes=[("static", "--thr %d" % thr), ("spec", "--max-n %d" % mn)])
+                           drv_modes=[("static", "--thr %d" % thr), ("spec", ("--max-n %d " % mn) + spec_opts)])
     known = ctx.load_known()
     stats = {"cases": 0, "by_kind": {}, "recipes": {}, "sat_calls": 0, "judged": 0, "skipped_large": 0,
              "status": {}, "hybrid_aux_branch": 0}
